@@ -133,6 +133,18 @@ func (k Keeper) ProcessSwappedFund(
 	if remainderAmountIn.IsPositive() {
 		remainderTokenIn := sdk.NewCoin(result.TokenIn.Denom, remainderAmountIn)
 
+		// The unspent input belongs to the receiver. Hand it over before anything else, so that
+		// nothing stays in the module account and the change transfer below, which is sent (and on
+		// failure refunded) in the receiver's name, is funded.
+		receiver, err := sdk.AccAddressFromBech32(tokenData.Receiver)
+		if err != nil {
+			return nil, err
+		}
+		err = k.BankKeeper.SendCoinsFromModuleToAccount(ctx, types.ModuleName, receiver, sdk.NewCoins(remainderTokenIn))
+		if err != nil {
+			return nil, err
+		}
+
 		switch amountStrategy := swapData.AmountStrategy.(type) {
 		case *types.SwapMetadata_ExactAmountOut:
 			if amountStrategy.ExactAmountOut.Change != nil {
